@@ -182,6 +182,8 @@ OBJ_LISTS = [
     PL("ObjMixed", F("obj4"), COUNT8, V("obj"), P("u8")),
     PL("ObjVaryingAligned16", COUNT8, V("obj", 16), P("obj4")),
     PL("ObjFixedAligned16", P("obj4"), F("obj", 16)),
+    PL("ObjSandwich", P("u32"), P("obj"), P("u32")),
+    PL("ObjSandwichSpans", F("u8"), P("obj"), F("u16", 2), P("obj4"), P("u8")),
     PL("ObjTDPlainFixed", P("objtd"), F("objtd")),
     PL("ObjTDVarying", COUNT8, V("objtd"), P("u32")),
 ]
